@@ -28,6 +28,7 @@ def run_steps(spec, items, mux=True):
     """Subject-driven: ([outputs at step t], outputs at completion, sink)."""
     ctx = opspecs.Ctx()
     st = ApiStepper(opspecs.build(spec, ctx), mux=mux)
+    st.sink.before_first_input = list(st.sink.items)      # anything emitted at subscription time
     steps = [st.push(x) for x in items]
     end = st.complete()
     return steps, end, st.sink
